@@ -1,10 +1,14 @@
-(* C12 driver: the final-membership lines of the concurrent runs, same format as C11:
-   One history per line:
+(* C12 driver: the final-membership lines of the concurrent runs, same format as C11.  One history per line:
+     E <obs> <obs> ...
+     L <obs> <obs> ...          (long, may contain run-length groups; never sampled)
    obs:  A:<ip hex>:<mask hex>:<res>   Add    (res 0 = nil, 1 = ErrInvalidIPv4CIDR, 2 = panic/other)
          R:<ip hex>:<mask hex>:<res>   Remove
          C:<ip hex>:<res>              Contains (res 0 = false, 1 = true, 2 = panic)
-   The extracted check_final replays the line on the model and on the specification.
-   On a failure the history is cut down to the updates before the first failing observation plus
+         *<n>*<obs>,<obs>,...          the group of observations n times in a row (every repetition
+                                       returned the same results; the harness checks that)
+   The extracted step function (Check/C11.v: acc0 / step_acc / verdict_of_acc, = check_history) replays
+   the line on the model and on the specification.
+   On a failure an E history is cut down to the updates before the first failing observation plus
    that observation ("SPECFAIL <minimised line>"); the original line is also named ("DRIFT <line>",
    not counted) so that the runner's in-Coq cross-check of sampled lines knows it failed. *)
 let parse_obs tok =
@@ -14,6 +18,19 @@ let parse_obs tok =
   | ["C"; ip; r] -> OContains (bytes_of_hex ip, n_of_int (int_of_string r))
   | _ -> failwith ("bad observation " ^ tok)
 
+(* fold the extracted step over the (run-length encoded) tokens *)
+let run_tokens toks =
+  List.fold_left (fun a tok ->
+    if String.length tok > 0 && tok.[0] = '*' then
+      match String.split_on_char '*' tok with
+      | [""; n; body] ->
+          let group = List.map parse_obs (String.split_on_char ',' body) in
+          let a = ref a in
+          for _ = 1 to int_of_string n do a := List.fold_left step_acc !a group done;
+          !a
+      | _ -> failwith ("bad group " ^ tok)
+    else step_acc a (parse_obs tok)) acc0 toks
+
 let minimise toks i =
   let rec go k = function
     | [] -> []
@@ -22,24 +39,24 @@ let minimise toks i =
 
 let () =
   let cases = ref 0 and specfail = ref 0 and mismatch = ref 0 and probes = ref 0 and obs = ref 0
-  and invalid = ref 0 and migrated = ref 0 in
+  and invalid = ref 0 and migrated = ref 0 and long = ref 0 in
   iter_lines Sys.argv.(1) (fun line ->
     match split_ws line with
-    | "E" :: toks ->
+    | (("E" | "L") as tag) :: toks ->
         incr cases;
-        let v = check_final (List.map parse_obs toks) in
+        if tag = "L" then incr long;
+        let v = verdict_of_acc (run_tokens toks) in
         probes := !probes + int_of_n v.n_probes;
         obs := !obs + int_of_n v.n_obs;
         invalid := !invalid + int_of_n v.n_invalid;
         if v.final_maps then incr migrated;
+        let report kind i =
+          if tag = "E" then Printf.printf "%s %s\nDRIFT %s\n" kind (minimise toks i) line
+          else Printf.printf "%s %s first_failing_observation=%d\n" kind line i in
         (match v.spec_fail, v.model_fail with
-         | Some i, _ ->
-             incr specfail;
-             Printf.printf "SPECFAIL %s\nDRIFT %s\n" (minimise toks (int_of_n i)) line
-         | None, Some i ->
-             incr mismatch;
-             Printf.printf "MISMATCH %s\nDRIFT %s\n" (minimise toks (int_of_n i)) line
+         | Some i, _ -> incr specfail; report "SPECFAIL" (int_of_n i)
+         | None, Some i -> incr mismatch; report "MISMATCH" (int_of_n i)
          | None, None -> ())
     | _ -> ());
-  Printf.printf "STATS cases=%d specfail=%d mismatch=%d drift=0 observations=%d probes=%d invalid_args=%d histories_in_map_mode=%d\n"
-    !cases !specfail !mismatch !obs !probes !invalid !migrated
+  Printf.printf "STATS cases=%d specfail=%d mismatch=%d drift=0 observations=%d probes=%d invalid_args=%d histories_in_map_mode=%d run_length_encoded_histories=%d\n"
+    !cases !specfail !mismatch !obs !probes !invalid !migrated !long
